@@ -7,6 +7,9 @@ private helper), the same-owner guards, re-rooting, unlinking through the raw pa
 setter (no unlink from the previous parent), in-place list operations that keep only a subset of the list, a memoised
 all_children with incomplete invalidation (X.tasks keeps listing removed tasks), removal paths delegating to the children
 assignment (also through private helpers).  Full reachability equivalence relies on the C01 invariant.
+Round 4: _attach/_detach as one flat loop over `[self] + all descendants`; rejections of the parent setter precede unlink /
+_attach; WBS.__root is bound only in the constructor; the detach loop of the children setter is reached on every path (an early
+return is fine only when its condition means nobody can have been dropped); move / reorder put back every task they take out.
 Not decided: a memoised all_children whose invalidation looks complete (UNDECIDED).
 """
 from __future__ import annotations
@@ -62,7 +65,7 @@ def check(ctx):
                "one child list object per task, shared with every children facade: facades change it in place and publish that very object, "
                "nothing rebinds it (otherwise a list obtained earlier goes stale and a later remove()/append() through it re-attaches or "
                "drops tasks)", floor=4)
-    ctx.guarded(o, lambda o: T.shared_list(ctx, o))
+    ctx.guarded(o, lambda o: _shared_list(ctx, o))
 
     o = ctx.ob('reparent_unlinks_old_parent', 'R4',
                "a task that gets a (non-None) raw parent is first unlinked from the child list of its previous raw parent: this happens "
@@ -78,6 +81,21 @@ def check(ctx):
                "the in-place operations of the children list (sort) replace the list by a permutation of itself: no task drops out of the "
                "list without being detached", floor=1)
     ctx.guarded(o, lambda o: list_ops(ctx, o))
+
+    o = ctx.ob('rejected_move_keeps_membership', 'R3',
+               "parent setter: every rejection of the new parent (itself, a descendant, dependency-linked) happens before the task is "
+               "unlinked from its old parent or re-labelled: a refused move must not leave the task outside X.tasks while it reports X "
+               "(shared rule with C05.parent_assignment_atomic)", floor=3)
+
+    def _patomic(o):
+        from .c05 import parent_atomic
+        parent_atomic(ctx, o, eff)
+    ctx.guarded(o, _patomic)
+
+    o = ctx.ob('root_task_fixed', 'R1',
+               "WBS.__root is bound once, in WBS.__init__: swapping in another root task drops every member from X.tasks without detaching "
+               "it", floor=1)
+    ctx.guarded(o, lambda o: root_fixed(ctx, o, eff))
 
     o = ctx.ob('removal_paths_delegate', 'R8',
                "list removal, remove_all, WBS.remove / remove_all and roots assignment all end in a children assignment on the owning task", floor=4)
@@ -146,7 +164,12 @@ def recursion(ctx, o):
             continue
         f, via_call, via_f = _owner_worker(prog, entry, eff)
         if f is None:
-            o.refute(entry, entry.node, name, f"{name} stores the owner 0 times")
+            r = _flat_owner_loop(ctx, o, entry, name, val_ok)
+            if r is None:
+                if any(True for _ in facts.attr_stores(entry, '_Task__wbs')) or _unresolved_calls(ctx, _closure(ctx, entry)):
+                    o.undecided(entry, entry.node, name, f"{name} stores the owner in a form the rule does not follow")
+                else:
+                    o.refute(entry, entry.node, name, f"{name} stores the owner 0 times")
             continue
         s = f.self_name
         cfg = cfg_of(f)
@@ -224,6 +247,66 @@ def recursion(ctx, o):
                 o.refute(f, fo, fo.iter, f"{name} iterates `{src(fo.iter)[:50]}`, not all children of the task")
         if not ok and not rec:
             o.refute(f, f.node, f"{name} recursion", f"{name} does not recurse: grandchildren and below keep the old owner")
+
+
+def _whole_subtree_expr(e, s) -> bool:
+    """e denotes the task `s` itself followed by all its descendants"""
+    desc = (f"{s}._Task__get_all_children()", f"{s}.all_children", f"list({s}.all_children)", f"list({s}._Task__get_all_children())",
+            f"[$x for $x in {s}.all_children]", f"_collect_subtree({s})")
+    if match(f"_collect_subtree({s})", e):
+        return True
+    if isinstance(e, ast.BinOp) and isinstance(e.op, ast.Add) and match(f"[{s}]", e.left):
+        return any(match(d, e.right) for d in desc[:5])
+    if isinstance(e, ast.List) and len(e.elts) == 2 and match(s, e.elts[0]) and isinstance(e.elts[1], ast.Starred):
+        return any(match(d, e.elts[1].value) for d in desc[:5])
+    m = match("list($x)", e)
+    return m is not None and _whole_subtree_expr(m['x'], s)
+
+
+def _flat_owner_loop(ctx, o, f, name, val_ok):
+    """`for m in [self] + <all descendants>: m.__wbs = <owner>`: the non-recursive spelling of _attach / _detach.
+    True when recognised (verdict recorded), None when f is not of that form"""
+    prog = ctx.prog
+    s = f.self_name
+    cfg = cfg_of(f)
+    ex = Expander(prog, f, ctx.typer, inline=False)
+    stores = [x for x in facts.attr_stores(f, '_Task__wbs')]
+    if len(stores) != 1 or not isinstance(stores[0][1].value, ast.Name):
+        return None
+    st, tgt, val = stores[0]
+    fo = None
+    for n in walk_no_nested(f.node):
+        if isinstance(n, ast.For) and any(x is st for b in n.body for x in ast.walk(b)):
+            fo = n
+    if fo is None or not isinstance(fo.target, ast.Name) or fo.target.id != tgt.value.id:
+        return None
+    it = ex.expand(fo.iter, cfg.node_of(fo))
+    if not _whole_subtree_expr(it, s):
+        direct = (f"{s}.children", f"{s}._Task__children", f"list({s}.children)", f"list({s}._Task__children)", f"{s}._Task__children[:]",
+                  f"{s}._Task__children.copy()")
+        if any(match(d, it) or match(f"[{s}] + {d}", it) or match(f"[{s}, *{d}]", it) for d in direct):
+            o.refute(f, fo, fo.iter, f"{name} walks `{src(it)[:50]}`: only the task and its direct children, grandchildren and below keep the old owner")
+            return True
+        return None
+    wp = [x for x in f.params if x != s]
+    conds = [facts.norm_cond(t, q) for t, q in facts.node_conditions(prog, f, st, ctx.typer, expand=False)]
+    if val_ok == 'param':
+        if not (isinstance(val, ast.Name) and wp and val.id == wp[0]):
+            o.refute(f, st, st, f"_attach stores `{src(val)}` instead of its argument")
+            return True
+        bad = [(t, q) for t, q in conds if not (match(f"{wp[0]} is None", t) and not q)]
+        if bad:
+            o.refute(f, st, st, "_attach skips the owner update when " + ', '.join(facts.cond_texts(bad)))
+            return True
+    else:
+        if not (isinstance(val, ast.Constant) and val.value is None):
+            o.refute(f, st, st, "_detach does not clear the owner")
+            return True
+        if conds:
+            o.refute(f, st, st, "_detach clears the owner only when " + ', '.join(facts.cond_texts(conds)))
+            return True
+    o.site(f, st, f"{name}: the owner is stored on the task and on every descendant (flat loop over the subtree)")
+    return True
 
 
 def attach_paired(ctx, o):
@@ -345,11 +428,87 @@ def detach_paired(ctx, o):
         if isinstance(c.func.value, ast.Name) and c.func.value.id == v and len(kept) == len(conds) and kept:
             if not _released_first(ctx, o, f, s, fo, rp, kept, v):
                 continue
+            skip = _skips_loop(cfg, f, ds[0].node, cfg.node_of(fo))
+            if skip is not None:
+                kinds = []
+                for xp in (False, True):
+                    sc = facts.node_conditions(prog, f, skip, ctx.typer, expand=xp) if isinstance(skip, ast.AST) and skip is not f.node else []
+                    # only the tests taken after the old children were released belong to the early return
+                    raw = cfg.conditions(cfg.node_of(skip)) if isinstance(skip, ast.AST) and cfg.node_of(skip) is not None else []
+                    late = sum(1 for t, q in raw if cfg.node_containing(t) is not None and cfg.can_reach(ds[0].node, cfg.node_containing(t)))
+                    if raw and late < len(raw) and not xp:
+                        keep = {id(t) for t, q in raw if cfg.node_containing(t) is not None and cfg.can_reach(ds[0].node, cfg.node_containing(t))}
+                        sc = [(t, q) for t0, q0 in raw if id(t0) in keep for t, q in facts.split_conj(t0, q0)]
+                    kinds.append((_skip_kind(sc, s, fo.iter.id, []), sc))
+                kind = 'benign' if any(k == 'benign' for k, _ in kinds) else (kinds[0][0] if kinds[0][0] != 'unknown' else kinds[1][0])
+                sc = kinds[0][1] if kinds[0][0] != 'unknown' else kinds[1][1]
+                if kind == 'benign':
+                    pass
+                elif kind == 'wrong':
+                    o.refute(f, skip, skip, f"the children setter returns at `{src(skip).splitlines()[0][:50]}` (when "
+                                            f"{', '.join(facts.cond_texts(sc))[:120]}) after the old children were released but before the detach "
+                                            f"loop; that condition does not mean that nobody was left out: a dropped task keeps reporting the WBS")
+                    continue
+                else:
+                    o.undecided(f, skip, skip, f"the children setter can return before the detach loop when {', '.join(facts.cond_texts(sc))[:120]}")
+                    continue
             o.site(f, c, f"for {v} in old: if not re-attached: {v}._detach()")
         elif not conds:
             o.refute(f, c, c, "every old child is detached, also those that were re-attached by the assignment")
         else:
             o.refute(f, c, c, "old children are detached under " + ', '.join(facts.cond_texts(conds)) + "; expected exactly `not re-attached`")
+
+
+def _skips_loop(cfg, f, start, loop_hdr):
+    """a `return` (or the end of the function) reachable from `start` without passing the header of the detach loop: the
+    offending statement, else None.  Paths that raise do not count."""
+    seen, todo = set(), list(start.succ)
+    while todo:
+        n = todo.pop()
+        if n.id in seen or n is loop_hdr:
+            continue
+        seen.add(n.id)
+        if n is cfg.exit:
+            continue
+        if cfg.exit in n.succ:
+            return n.ast if n.ast is not None else f.node
+        todo.extend(n.succ)
+    return None
+
+
+def _skip_kind(conds, s, old, locals_) -> str:
+    """an early return that skips the detach loop: 'benign' when its condition means nothing can have been dropped (receiver
+    detached, no old children, every old child among the new ones), 'wrong' when it is made only of such tests and size
+    comparisons and is not benign (sizes say nothing about who was left out), else 'unknown'"""
+    unknown = [False]
+
+    def benign(t, pol) -> bool:
+        if isinstance(t, ast.UnaryOp) and isinstance(t.op, ast.Not):
+            return benign(t.operand, not pol)
+        if isinstance(t, ast.BoolOp):
+            conj = isinstance(t.op, ast.And) == pol
+            rs = [benign(v, pol) for v in t.values]
+            return any(rs) if conj else all(rs)
+        if facts.cond_is(t, pol, f"{s}._Task__wbs is None", True) is not None or facts.cond_is(t, pol, f"{s}.wbs is None", True) is not None:
+            return True
+        if pol is False and (match(old, t) or match(f"len({old})", t)) or facts.cond_is(t, pol, f"len({old}) == 0", True) is not None or \
+                facts.cond_is(t, pol, f"len({old}) > 0", False) is not None:
+            return True
+        m = match(f"all($v in $new for $v in {old})", t) or match(f"all([$v in $new for $v in {old}])", t)
+        if m is not None and pol:
+            return True
+        if isinstance(t, ast.Compare) and all(isinstance(x, ast.Constant) or match("len($x)", x) for x in [t.left] + t.comparators):
+            return False          # a pure size test
+        if facts.cond_is(t, pol, "$a._Task__wbs is None", True) is not None or facts.cond_is(t, pol, "$a._Task__wbs is None", False) is not None:
+            return False
+        unknown[0] = True
+        return False
+    if not conds:
+        return 'wrong'
+    ok = any(benign(t, q) for t, q in conds)
+    if ok:
+        return 'benign'
+    return 'unknown' if unknown[0] else 'wrong'
 
 
 def _released_first(ctx, o, f, s, fo, rp, kept, v) -> bool:
@@ -467,6 +626,25 @@ def owner_guards(ctx, o, eff):
               AND(N(A('wbsnone(self)')), N(A('wbsnone(elem)')), A('wbsneq(elem,self)')), writes, eff, True, mode_filter=_reaches_under)
 
 
+def _shared_list(ctx, o):
+    from .c05_util import shared_list
+    shared_list(ctx, o)
+
+
+def root_fixed(ctx, o, eff):
+    prog = ctx.prog
+    for f in prog.all_funcs():
+        if isinstance(f.node, ast.Lambda):
+            continue
+        for w in eff.direct_writes(f):
+            if w.field == '_WBS__root' and w.kind in ('store', 'setattr'):
+                if f.qual == 'wbs.WBS.__init__':
+                    o.site(f, w.node, "root task created in the constructor")
+                else:
+                    o.refute(f, w.node, w.node, f"{f.qual} replaces the root task of the WBS (`{src(w.node)[:50]}`): the members of the old root "
+                                                f"disappear from X.tasks / X.roots but are never detached and keep reporting X as owner")
+
+
 def reparent_unlinks(ctx, o):
     prog = ctx.prog
     # private helpers that only the parent setter uses are part of it (the unlink obligation looks at the setter)
@@ -559,8 +737,29 @@ def list_ops(ctx, o):
         for c in [n for n in walk_no_nested(m.node) if isinstance(n, ast.Call) and isinstance(n.func, ast.Attribute) and
                   n.func.attr in ('sort', 'reverse') and match("self._list", ex.expand(n.func.value))]:
             o.site(m, c, f"{m.name}: the shared list is reordered in place (list.{c.func.attr})")
-        for st, value, in_place in T.list_replacements(m):
-            k = _perm_of_list(ex.expand(value))
+        fl = flow_of(m)
+        from .c05_util import inplace_replacements
+        if m.name != 'remove':
+            _taken_out_not_put_back(ctx, o, m, ex)
+        for st, value in inplace_replacements(prog, ctx.typer, m):
+            vx = ex.expand(value)
+            k = _perm_of_list(vx)
+            if k is None and isinstance(vx, ast.Name):
+                # `ordered = sorted(..)` in several branches, assigned once afterwards
+                ds = [d for d in fl.reaching(vx.id, cfg.node_of(st))]
+                ks = [_perm_of_list(ex.expand(d.value, d.node)) if d.kind == 'assign' and d.value is not None else None for d in ds]
+                if ks and all(x == 'perm' for x in ks):
+                    k = 'perm'
+                elif any(x is not None and x != 'perm' for x in ks):
+                    k = next(x for x in ks if x is not None and x != 'perm')
+            if k is None:
+                tp = _transfer_perm(m, value, ex, fl)
+                if tp == 'perm':
+                    k = 'perm'
+                elif tp is not None:
+                    o.refute(m, tp[1], tp[1], f"{m.name}: `{src(tp[1])[:40]}` takes a task out of the copy of the list without putting it into the "
+                                              f"new order: the task drops out of the children list without being detached")
+                    continue
             if k == 'perm':
                 o.site(m, st, f"{m.name}: the list is replaced by a permutation of itself")
             elif k is not None:
@@ -589,6 +788,89 @@ def list_ops(ctx, o):
                                         f"the children list without being detached")
                 else:
                     o.undecided(m, st, st, f"{m.name} replaces the list by a subset and extends it afterwards; cannot tell that all tasks are kept")
+
+
+def _transfer_perm(m, value, ex, fl):
+    """`A + B` (reorder): B a copy of the whole list, A filled in one loop by `A.append(v)` paired with `B.remove(v)`:
+    'perm' | ('lost', stmt) a task taken out of B is not put into A | None"""
+    if not (isinstance(value, ast.BinOp) and isinstance(value.op, ast.Add) and isinstance(value.left, ast.Name) and isinstance(value.right, ast.Name)):
+        return None
+    names = [value.left.id, value.right.id]
+    kinds = {}
+    for nm in names:
+        ds = [d for d in fl.defs_of(nm) if d.kind == 'assign']
+        if len(ds) != 1:
+            return None
+        v = ds[0].value
+        if isinstance(v, ast.List) and not v.elts:
+            kinds[nm] = 'empty'
+        elif _perm_of_list(ex.expand(v, ds[0].node)) == 'perm':
+            kinds[nm] = 'copy'
+        else:
+            return None
+    if sorted(kinds.values()) != ['copy', 'empty']:
+        return None
+    A = next(n for n in names if kinds[n] == 'empty')
+    B = next(n for n in names if kinds[n] == 'copy')
+    muts = []
+    for n in walk_no_nested(m.node):
+        if isinstance(n, ast.Call) and isinstance(n.func, ast.Attribute) and isinstance(n.func.value, ast.Name) and n.func.value.id in (A, B) and \
+                n.func.attr in ('append', 'remove', 'insert', 'pop', 'extend', 'clear'):
+            muts.append(n)
+    apps = [n for n in muts if n.func.value.id == A and n.func.attr == 'append' and len(n.args) == 1]
+    rems = [n for n in muts if n.func.value.id == B and n.func.attr == 'remove' and len(n.args) == 1]
+    if len(apps) + len(rems) != len(muts):
+        return None
+    cfg = cfg_of(m)
+    for r in rems:
+        mate = [a for a in apps if same(a.args[0], r.args[0]) and cfg.conditions(cfg.node_containing(a)) == cfg.conditions(cfg.node_containing(r))]
+        if not mate:
+            return ('lost', r)
+    for a in apps:
+        if not any(same(a.args[0], r.args[0]) for r in rems):
+            return None          # a task listed twice: not a membership question (C01)
+    return 'perm'
+
+
+def _taken_out_not_put_back(ctx, o, m, ex):
+    """`self._list.remove(x)` ... `self._list.insert(i, x)` (move): every removal from the shared list is followed on every path
+    of the same iteration by putting that task back"""
+    cfg = cfg_of(m)
+    calls = [n for n in walk_no_nested(m.node) if isinstance(n, ast.Call) and isinstance(n.func, ast.Attribute) and
+             match("self._list", ex.expand(n.func.value))]
+    rems = [n for n in calls if n.func.attr == 'remove' and len(n.args) == 1]
+    puts = [n for n in calls if n.func.attr in ('insert', 'append') and n.args]
+    for r in rems:
+        rn = cfg.node_containing(r)
+        if rn is None:
+            continue
+        stop = {cfg.node_containing(p).id for p in puts if same(p.args[-1], r.args[0]) and cfg.node_containing(p) is not None}
+        # ... or parked in a local list that a later in-place replacement of the shared list contains (`self._list[:] = picked + self._list`)
+        from .c05_util import inplace_replacements
+        parked = {x.id for st, v in inplace_replacements(ctx.prog, ctx.typer, m) for x in ast.walk(v) if isinstance(x, ast.Name)}
+        for n in walk_no_nested(m.node):
+            if isinstance(n, ast.Call) and isinstance(n.func, ast.Attribute) and n.func.attr == 'append' and isinstance(n.func.value, ast.Name) and \
+                    n.func.value.id in parked and len(n.args) == 1 and same(n.args[0], r.args[0]) and cfg.node_containing(n) is not None:
+                stop.add(cfg.node_containing(n).id)
+                if cfg.dominates(cfg.node_containing(n), rn) and cfg.enclosing_fors(cfg.node_containing(n)) == cfg.enclosing_fors(rn):
+                    stop.update(q.id for q in rn.succ)       # parked just before it is taken out
+        fors = cfg.enclosing_fors(rn)
+        hdr = cfg.node_of(fors[-1]) if fors else None
+        seen, todo, leak = set(), list(rn.succ), False
+        while todo:
+            q = todo.pop()
+            if q.id in seen or q.id in stop:
+                continue
+            seen.add(q.id)
+            if q is cfg.exit or (hdr is not None and q is hdr):
+                leak = True
+                break
+            todo.extend(q.succ)
+        if leak:
+            o.refute(m, r, r, f"{m.name} takes `{src(r.args[0])}` out of the shared child list and a path does not put it back: the task leaves "
+                              f"the children list (and X.tasks) without being detached")
+        else:
+            o.site(m, r, f"{m.name}: the task taken out of the list is put back at its new place")
 
 
 def _is_attr_base(root, name_node) -> bool:
@@ -685,19 +967,22 @@ def removal_paths(ctx, o):
     f = prog.func('wbs.WBS.roots.setter')
     _delegates(ctx, o, f, children_store("self._WBS__root"), 'roots', "roots assignment = children assignment on the root task",
                "WBS.roots assignment bypasses the root task's children assignment")
-    f = prog.func('wbs.WBS.__remove')
+    f = prog.func('wbs.WBS.remove')
 
     def facade_remove(g):
         exr = Expander(prog, g, ctx.typer, inline=False)
         for n in facts.calls_named(g, 'remove'):
             if match("$c.children.remove($t)", exr.expand(n)) or match("$c.roots.remove($t)", exr.expand(n)):
                 return n
+        for st, tgt, val in facts.attr_stores(g, 'children'):
+            return st          # `current.children = kept`: a children assignment detaches what it leaves out
         return None
-    _delegates(ctx, o, f, facade_remove, '__remove', "WBS.remove -> children.remove", "WBS.remove does not remove through the child list facade")
+    _delegates(ctx, o, f, facade_remove, '__remove', "WBS.remove -> children.remove / children assignment",
+               "WBS.remove neither removes through the child list facade nor re-assigns the children of the owning task")
     f = prog.func('task._TaskList.remove_all')
 
     def self_remove(g):
-        for n in walk_no_nested(g.node):
+        for n in ast.walk(g.node):       # also inside a lambda handed to a shared helper
             if isinstance(n, ast.Call) and match("self.remove($t)", n):
                 return n
         return None
